@@ -115,6 +115,24 @@ int main(int argc, char** argv) {
   add_unit(nm("op_postdec", {L}), L, 2 * L, [](auto const* x, auto* o) { using T = TY(o); auto a = ldv<L, T>(x); auto r = a--; stv(o, r); stv(o + L, a); });
   UNL(1) UNL(2) UNL(3) UNL(4)
 #endif
+#if IN_PART(0)
+  // lowp inversesqrt is a deliberate fast approximation (bit trick + one Newton step): the property allows a relative error below 2^-8
+  // against the scalar overload.  Not a theorem (float rounding of three products): a dense sweep.  The input picks a power of 4 (the
+  // trick is invariant under it) and an offset; every call sweeps 2048 vec4 of consecutive mantissa steps across [1,4) * 4^k.
+  add_prop("p_lowp_inversesqrt", 2, 0.00390625, 1e-12, [](auto const* u) { using T = TY(u);
+    int k = (int)(u[0] * 15.0); T scale = (T)std::ldexp(1.0, 2 * k); double off = ((double)u[1] + 2.0) / 4.0;   // k in -30..30
+    double worst = 0;
+    for (int s = 0; s < 2048; ++s) {
+      glm::vec<4, T, glm::lowp> x;
+      for (int c = 0; c < 4; ++c) x[c] = (T)((1.0 + 3.0 * ((s * 4 + c + off) / 8192.0)) * (double)scale);
+      glm::vec<4, T, glm::lowp> r = glm::inversesqrt(x);
+      glm::vec<3, T, glm::lowp> r3 = glm::inversesqrt(glm::vec<3, T, glm::lowp>(x)); glm::vec<1, T, glm::lowp> r1 = glm::inversesqrt(glm::vec<1, T, glm::lowp>(x.y));
+      for (int c = 0; c < 4; ++c) { double ref = (double)glm::inversesqrt(x[c]); worst = std::max(worst, std::fabs((double)r[c] - ref) / ref); }
+      for (int c = 0; c < 3; ++c) { double ref = (double)glm::inversesqrt(x[c]); worst = std::max(worst, std::fabs((double)r3[c] - ref) / ref); }
+      { double ref = (double)glm::inversesqrt(x.y); worst = std::max(worst, std::fabs((double)r1.x - ref) / ref); }
+    }
+    return (T)worst; });
+#endif
 #if IN_PART(8)
   add_unit("mabsJ", 4, 4, [](auto const* x, auto* o) { using T = TY(o); stm(o, glm::abs(ldm<2, 2, T>(x))); });
   MRELJ("mequalJ", glm::equal(a, b), 8) MRELJ("mnotEqualJ", glm::notEqual(a, b), 8)
